@@ -424,6 +424,24 @@ func runC10(c *Ctx) *Replay {
 		}
 	}
 	menu := append([]string{"unexpected-eof", "closed-pipe", "reset", "custom"}, simnet.TemporaryNames...)
+	// a reader that neither ends nor fails: from some offset on every Read returns (0, nil)
+	for i := 0; i < 3 && len(offs) > 0; i++ {
+		k := offs[r.Intn(len(offs))]
+		fs := Scenario{Kind: "readfile", Input: input, Reader: []string{"plain", "named", "fat", "limited", "bufio", "bytereader"}[r.Intn(6)], Sched: drawSchedule(r, len(input), nil),
+			RFault: &simnet.ReadFault{At: k, Err: "stall"}}
+		if len(input) > 1<<15 {
+			fs.Sched = &simnet.Schedule{Name: "fixed", Repeat: 4096}
+		}
+		viol := execReadFile(c.N, &fs)
+		c.Count("evaluations", 1)
+		c.Count("fault:read-stall-forever", 1)
+		c.State("c10f", origin, "stall", fs.Extra["outcome"])
+		if viol != nil {
+			if rp := c.shrinkInput(&fs, viol); rp != nil {
+				return rp
+			}
+		}
+	}
 	for _, k := range offs {
 		for variant := 0; variant < 3; variant++ {
 			fs := Scenario{Kind: "readfile", Input: input, Reader: []string{"plain", "plain", "named", "fat", "limited", "bufio", "bytereader"}[(k+variant)%7], Sched: &simnet.Schedule{Name: "all"},
